@@ -96,6 +96,8 @@ impl Runner {
         I: ConcurrentIterX,
         F: Fn(usize) + Sync,
     {
+        #[cfg(orx_parallel_verif)]
+        crate::verif::on_run_begin(iter);
         let runner = Self::new(params, task_type, iter.try_get_len());
 
         let mut num_spawned = 0;
@@ -122,6 +124,8 @@ impl Runner {
 
             s.spawn(move || thread_task(chunk));
             num_spawned += 1;
+            #[cfg(orx_parallel_verif)]
+            crate::verif::on_all_spawned();
         });
 
         num_spawned
@@ -138,6 +142,8 @@ impl Runner {
         F: Fn(usize) -> Out + Sync,
         Out: Send + Sync,
     {
+        #[cfg(orx_parallel_verif)]
+        crate::verif::on_run_begin(iter);
         let runner = Self::new(params, task_type, iter.try_get_len());
 
         let mut num_spawned = 0;
@@ -165,6 +171,8 @@ impl Runner {
 
             handles.push(s.spawn(move || thread_task(chunk)));
             num_spawned += 1;
+            #[cfg(orx_parallel_verif)]
+            crate::verif::on_all_spawned();
 
             let mut vec = vec![];
             for x in handles {
@@ -187,6 +195,8 @@ impl Runner {
         T: Send,
         R: Fn(T, T) -> T,
     {
+        #[cfg(orx_parallel_verif)]
+        crate::verif::on_run_begin(iter);
         let runner = Self::new(params, task_type, iter.try_get_len());
 
         std::thread::scope(|s| {
@@ -209,6 +219,8 @@ impl Runner {
             }
 
             threads.push(s.spawn(move || thread_task(chunk)));
+            #[cfg(orx_parallel_verif)]
+            crate::verif::on_all_spawned();
 
             let num_threads = threads.len();
             let result = threads
@@ -234,4 +246,67 @@ fn lag() {
     }
 
     assert!(black_box(fibonacci(1 << 16)) > 0);
+}
+
+#[cfg(orx_parallel_verif)]
+mod std {
+    pub use ::std::*;
+    pub mod thread {
+        pub use crate::verif::thread::scope;
+    }
+}
+
+#[cfg(orx_parallel_verif)]
+pub mod verif_api {
+    //! Plain-integer views of the crate-private runner arithmetic.
+    use super::*;
+    use crate::{ChunkSize, NumThreads};
+
+    fn task_of(task: u8) -> ParTask {
+        match task {
+            0 => ParTask::Collect,
+            1 => ParTask::EarlyReturn,
+            _ => ParTask::Reduce,
+        }
+    }
+
+    /// `Runner::new` as `(max_num_threads, chunk_is_exact, chunk_size)`;
+    /// `task`: 0 = Collect, 1 = EarlyReturn, otherwise Reduce.
+    pub fn runner_new(
+        num_threads: NumThreads,
+        chunk_size: ChunkSize,
+        task: u8,
+        input_len: Option<usize>,
+    ) -> (usize, bool, usize) {
+        let params = Params {
+            num_threads,
+            chunk_size,
+        };
+        let r = Runner::new(params, task_of(task), input_len);
+        (
+            r.max_num_threads,
+            matches!(r.chunk_size, ResolvedChunkSize::Exact(_)),
+            r.chunk_size.inner(),
+        )
+    }
+
+    /// `(do_spawn, next_chunk_size)` of the runner built from the given settings.
+    pub fn spawn_decisions(
+        num_threads: NumThreads,
+        chunk_size: ChunkSize,
+        task: u8,
+        input_len: Option<usize>,
+        num_spawned: usize,
+        has_more: HasMore,
+    ) -> (bool, Option<usize>) {
+        let params = Params {
+            num_threads,
+            chunk_size,
+        };
+        let r = Runner::new(params, task_of(task), input_len);
+        (
+            r.do_spawn(num_spawned, has_more),
+            r.next_chunk_size(num_spawned, has_more),
+        )
+    }
 }
